@@ -938,7 +938,7 @@ def probe_known(ctx):
 
 def search(ctx):
     rng = ctx.rng
-    n = ctx.scale(400, 6000)
+    n = ctx.scale(2000, 30000)
     L = ctx.scale(8, 30)
     budget = ctx.scale(22, 420)  # seconds of search proper
     t0 = time.time()
